@@ -25,6 +25,8 @@ DEL = core.del_statuses
 def gen_schema(rng):
     """declaration spec: attrs in global declaration order (AttrId = position)"""
     nent = rng.choice([1, 2, 2, 3, 3, 4])
+    hub = rng.random() < 0.55        # a "hub" entity with a many-to-many collection, a dependent that blocks its delete, ...
+    if hub and nent == 1: nent = 2
     decl = []      # items: ('s', ent, req, unique) | ('r', relno, side)
     rels = []
     for e in range(nent):
@@ -68,6 +70,26 @@ def gen_schema(rng):
         decl.append(('r', i, 'a'))
         if not r['sym']: decl.append(('r', i, 'b'))
     rng.shuffle(decl)
+    if hub:
+        def S(ent, coll=False, req=False, casc=None): return {'ent': ent, 'coll': coll, 'req': req, 'opt_casc': casc}
+        h = rng.randrange(nent - 1)
+        dep = rng.randrange(h + 1, nent)
+        pack = []
+        n0 = len(rels)
+        rels.append({'kind': 'm2m', 'sym': False, 'a': S(h, coll=True), 'b': S(rng.randrange(nent), coll=True)})
+        pack += [('r', n0, 'a'), ('r', n0, 'b')]
+        if rng.random() < 0.6:
+            rels.append({'kind': 'm2o', 'sym': False, 'a': S(rng.randrange(nent)), 'b': S(h, coll=True, casc=rng.choice([None, False]))})
+            pack += [('r', len(rels) - 1, 'b'), ('r', len(rels) - 1, 'a')]
+        if rng.random() < 0.35:
+            rels.append({'kind': 'm2o', 'sym': False, 'a': S(rng.randrange(nent)), 'b': S(h, coll=True, casc=True)})
+            pack += [('r', len(rels) - 1, 'b'), ('r', len(rels) - 1, 'a')]
+        if rng.random() < 0.65: rels.append({'kind': 'm2o', 'sym': False, 'a': S(dep, req=True), 'b': S(h, coll=True, casc=False)})
+        else: rels.append({'kind': 'o2o', 'sym': False, 'a': S(dep, req=True), 'b': S(h, casc=False)})
+        pack += [('r', len(rels) - 1, 'b'), ('r', len(rels) - 1, 'a')]
+        # the package keeps its relative order (the blocking attribute comes last); it is spliced into the shuffled declarations
+        cut = sorted(rng.randrange(len(decl) + 1) for _ in pack)
+        for off, (c, d) in enumerate(zip(cut, pack)): decl.insert(c + off, d)
     attrs = []
     pos = {}
     for d in decl:
@@ -135,6 +157,7 @@ class World:
             assert [tuple(self.aid[a] for a in k) for k in cls._composite_keys_] == [tuple(k) for k in spec['ckeys'] if spec['attrs'][k[0]]['ent'] == e], cls._composite_keys_
         self.objs = []
         self.cache = None
+        self.plan = []
 
     def idx(self, x):
         for i, o in enumerate(self.objs):
@@ -263,7 +286,124 @@ def drop_both_ends(ms, kv):
     return out
 
 
+def blocker_attrs(w, i):
+    """attributes of live object i that refuse its delete right now: [(attr id, is_collection)]"""
+    ms = w.model_schema
+    o = w.objs[i]
+    V = o._vals_ or {}
+    out = []
+    for a in w.ent_attrs[w.classes.index(type(o))]:
+        m = ms['attrs'][a]
+        if m['kind'] == 'scalar' or m['casc']: continue
+        rm = ms['attrs'][m['rev']]
+        if rm['kind'] != 'ref' or not rm['req']: continue
+        v = V.get(w.attr[a])
+        if m['kind'] == 'coll' and v: out.append((a, True))
+        if m['kind'] == 'ref' and v is not None: out.append((a, False))
+    return out
+
+
+def delete_refused(w, i, seen=None):
+    """would obj.delete() of live object i be refused somewhere in its cascade (approximation by DFS over cascade links)"""
+    seen = seen if seen is not None else set()
+    if i in seen or i < 0: return False
+    seen.add(i)
+    o = w.objs[i]
+    if o._status_ in DEL: return False
+    if blocker_attrs(w, i): return True
+    ms = w.model_schema
+    V = o._vals_ or {}
+    for a in w.ent_attrs[w.classes.index(type(o))]:
+        m = ms['attrs'][a]
+        if m['kind'] == 'scalar' or not m['casc']: continue
+        v = V.get(w.attr[a])
+        kids = list(v) if m['kind'] == 'coll' and v else ([v] if m['kind'] == 'ref' and v is not None else [])
+        if any(delete_refused(w, w.idx(x), seen) for x in kids): return True
+    return False
+
+
+def links(w, i):
+    V = w.objs[i]._vals_ or {}
+    return sum(len(v) if isinstance(v, core.SetData) else (1 if isinstance(v, core.Entity) else 0) for v in V.values())
+
+
+def plan_late_failure(rng, w):
+    """a short script of calls that ends in a call failing AFTER it changed something (appended to w.plan); returns a tag or None"""
+    ms = w.model_schema
+    objs = w.objs
+    alive = [o._status_ not in DEL for o in objs]
+    live_of = lambda e: [i for i, o in enumerate(objs) if alive[i] and w.classes.index(type(o)) == e]
+    dead_of = lambda e: [i for i, o in enumerate(objs) if not alive[i] and w.classes.index(type(o)) == e]
+    kind = rng.choice(['refused-delete', 'refused-delete', 'set-late', 'cascade-refused'])
+    if kind == 'refused-delete':
+        # an object with a blocker and a collection that the delete clears through Set.__set__(obj, (), undo_funcs) before it is refused
+        cands = []
+        for i in range(len(objs)):
+            if not alive[i]: continue
+            bl = blocker_attrs(w, i)
+            if not bl: continue
+            for c in w.ent_attrs[w.classes.index(type(objs[i]))]:
+                m = ms['attrs'][c]
+                if m['kind'] != 'coll' or m['casc'] or ms['attrs'][m['rev']]['req']: continue
+                if any((not is_coll) or b > c for b, is_coll in bl): cands.append((i, c))
+        if not cands: return None
+        i, c = rng.choice(cands)
+        m = ms['attrs'][c]
+        pool = [x for x in live_of(ms['attrs'][m['rev']]['ent'])]
+        if not pool: return None
+        cur = [w.idx(x) for x in (objs[i]._vals_.get(w.attr[c]) or ())]
+        fresh = [x for x in pool if x not in cur]
+        script = []
+        if fresh and rng.random() < 0.8: script.append({'k': 'add', 'o': i, 'a': c, 'items': sorted(rng.sample(fresh, min(len(fresh), rng.choice([1, 2, 2]))))})
+        if rng.random() < 0.6: script.append({'k': 'flush'})
+        r = rng.random()
+        have = cur + [x for op in script if op['k'] == 'add' for x in op['items']]
+        if r < 0.4 and have: script.append({'k': 'remove', 'o': i, 'a': c, 'items': [rng.choice(have)]})
+        elif r < 0.8 and pool: script.append({'k': 'add', 'o': i, 'a': c, 'items': sorted(rng.sample(pool, min(len(pool), rng.choice([1, 2]))))})
+        elif pool: script.append({'k': 'set', 'o': i, 'a': c, 'v': {'coll': sorted(rng.sample(pool, min(len(pool), rng.choice([1, 2]))))}})
+        script.append({'k': 'delete', 'o': i})
+        w.plan.extend(script)
+        return 'plan:refused-delete-after-collection-change'
+    if kind == 'cascade-refused':
+        cands = [i for i in range(len(objs)) if alive[i] and not blocker_attrs(w, i) and delete_refused(w, i)]
+        if not cands: return None
+        w.plan.append({'k': 'delete', 'o': rng.choice(cands)})
+        return 'plan:cascade-refused'
+    # set-late: obj.set(first collection rewritten, a later one-to-many collection holds a deleted object)
+    cands = []
+    for i in range(len(objs)):
+        if not alive[i]: continue
+        e = w.classes.index(type(objs[i]))
+        colls = [c for c in w.ent_attrs[e] if ms['attrs'][c]['kind'] == 'coll']
+        for c2 in colls:
+            m2 = ms['attrs'][c2]; r2 = ms['attrs'][m2['rev']]
+            if r2['kind'] != 'ref' or not dead_of(r2['ent']): continue
+            for c1 in colls:
+                if c1 != c2 and ms['attrs'][c1]['rev'] != c2: cands.append((i, c1, c2))
+    if not cands: return None
+    i, c1, c2 = rng.choice(cands)
+    m1 = ms['attrs'][c1]; m2 = ms['attrs'][c2]
+    pool1 = live_of(ms['attrs'][m1['rev']]['ent'])
+    dead2 = dead_of(ms['attrs'][m2['rev']]['ent'])
+    live2 = live_of(ms['attrs'][m2['rev']]['ent'])
+    kv = []
+    e = w.classes.index(type(objs[i]))
+    sc = [a for a in w.ent_attrs[e] if ms['attrs'][a]['kind'] == 'scalar']
+    if sc and rng.random() < 0.6: kv.append([rng.choice(sc), {'s': rng.randrange(40, 90)}])
+    kv.append([c1, {'coll': sorted(rng.sample(pool1, min(len(pool1), rng.choice([0, 1, 2]))))}])
+    kv.append([c2, {'coll': sorted(set(rng.sample(live2, min(len(live2), rng.choice([0, 1]))) + [rng.choice(dead2)]))}])
+    if rng.random() < 0.5 and pool1:
+        w.plan.append({'k': 'add', 'o': i, 'a': c1, 'items': [rng.choice(pool1)]})
+    w.plan.append({'k': 'setm', 'o': i, 'kv': kv})
+    return 'plan:set-fails-on-a-later-collection'
+
+
 def gen_op(rng, w, pbad, force_create=False):
+    if w.plan:
+        return w.plan.pop(0), 'planned'
+    if not force_create and pbad > 0 and rng.random() < 0.3:
+        t = plan_late_failure(rng, w)
+        if t is not None: return w.plan.pop(0), t
     ms = w.model_schema
     objs = w.objs
     alive = [o._status_ not in DEL for o in objs]
@@ -345,12 +485,10 @@ def gen_op(rng, w, pbad, force_create=False):
     o = rng.choice(pool)
     if not alive[o]: settag('dead-target')
     if r < 0.50:
-        if bad and live and rng.random() < 0.7:
-            # prefer an object that something else depends on (refusals and cascades)
-            def weight(i):
-                V = objs[i]._vals_ or {}
-                return sum(len(v) if isinstance(v, core.SetData) else (1 if isinstance(v, core.Entity) else 0) for v in V.values())
-            best = sorted(live, key=weight)[-max(1, len(live) // 3):]
+        if bad and live and rng.random() < 0.8:
+            # prefer an object whose delete is refused somewhere after it did some work
+            ref = [i for i in live if delete_refused(w, i)]
+            best = sorted(ref or live, key=lambda i: links(w, i))[-max(1, len(ref or live) // 2):]
             o = rng.choice(best)
         return {'k': 'delete', 'o': o}, tag[0]
     e = w.classes.index(type(objs[o]))
@@ -573,7 +711,8 @@ def obs_diff(m, r):
         if a == b: continue
         for f in a:
             if a[f] != b[f]:
-                if f in ('vals', 'colls', 'wbits') and a['status'] == 'deleted' and b['status'] == 'deleted': continue   # flush drops parts of deleted objects
+                # values kept by deleted objects depend on the order in which a cascade visited them (Python set order); flush drops parts of them
+                if f in ('vals', 'colls', 'wbits') and a['status'] == b['status'] and a['status'] in ('deleted', 'marked_to_delete', 'cancelled'): continue
                 if f == 'save_pos' and order_only and (a[f] is None) == (b[f] is None): continue
                 return ('obj %d %s' % (i, f), a[f], b[f])
     return None
